@@ -21,7 +21,7 @@ func init() {
 			"and EntityWithIndex.index is written only by buildRepresentationGroups from the range index of the representations it ranges over together with that iteration's representation; (contained) every call of " +
 			"an Entity resolver method lies in a function that registered its own deferred recover first (resolveEntity / resolveManyEntities run on spawned goroutines), the recovered error reaches the caller " +
 			"through the named error result, and each goroutine reports a failed representation exactly once; (joined) both go statements are accounted by a WaitGroup (C05/wg-accounting is re-run on the federation " +
-			"functions); (slot-ownership) the goroutines write only list[<private index>]; (requires-own-representation) under computed_requires the representation handed to a @requires resolver is read from the `representations` argument at the entity's own FieldContext Index only.",
+			"functions); (slot-ownership) the goroutines write only list[<private index>]; (requires-own-representation) under computed_requires the representation handed to a @requires resolver is read from the `representations` argument at the entity's own FieldContext Index only. (batch-positional) the batch handed to a multi entity resolver is make(len(reps)) written only at the range index over reps.",
 		NotDecided:  "which resolver is selected among several keys, that a batch resolver returns one entity per representation in order (positional zip), population of @requires fields under explicit_requires — value-level",
 		Assumptions: []string{"the materialised federation configurations (entityresolver incl. multi resolvers, explicit_requires, computed_requires; thorough adds function syntax)"},
 	})
